@@ -31,6 +31,7 @@ func init() {
 				Exhaustive: true,
 				Rule: "exhaustive part (seed-independent): a 6-entry unit-size cache over 7 keys is filled, then EVERY sequence of 4 (5 thorough) operations from {Get, Remove, Put} x 7 keys is applied, then six fresh keys evict everything and the eviction order is compared; random part: case = (limit 1..40, unit sizes or a size function with sizes 0..limit+2, 2..40 keys, history of 80-600 Put/Get/Has/Remove/Clear with Remove-then-Get/Remove/Put bursts; a third of the size-function histories with every size and the limit multiplied by 2^26..2^56 (totals beyond 2^31, 2^32, 2^53); one history in five runs on a cache configured WITHOUT the optional eviction callback, where evictions are observed through the results only). Long-lived caches: one instance carries 150 000 (600 000 thorough) calls under sparse observation (per-call clocks and counters get the chance to drift or wrap). After EVERY call: the result, Len, Size (== sum of sizes, <= limit), Has for every key, the exact eviction-callback multiset of that call with evictions in exact LRU order (order of Clear's callbacks and the position of the replaced entry's callback unconstrained), and the accounting/LRU-index hook. " +
 					"Every history is executed as is and with the F1 counterfactual switch; a real-run violation is attributed to F1 iff it vanishes in the counterfactual run, every parent index seen was i/2 or (i-1)/2, and the cache had held >= 5 entries; a violation in a counterfactual run is a VIOLATION. " +
+					"The size function records every argument it receives: it must only ever be asked about values that were handed to Put (never a zero value or anything else the caller did not supply). " +
 					"distinct = hash(config, ops); non-trivial = the history evicted at least once and performed an access or removal after a Remove",
 				Required:     []string{"exhaustive_small_histories", "histories", "histories_ge6_entries", "evictions", "remove_then_access", "zero_size_puts", "too_large_puts", "replacing_puts", "clears", "hook_checks", "sparse_observation_runs", "runs_without_evict_callback", "long_lived_cache_runs", "runs_with_sizes_beyond_2_to_the_31", "clock_jumps", "interface_key_histories"},
 				Assumptions:  []string{"reference model: recency list; Put and successful Get count as uses, Has does not", "known finding F1 is excused only through the counterfactual switch in heapq/verif_on.go and only when >= 5 entries were held"},
@@ -116,6 +117,8 @@ func c08run(c *fw.Ctx, cfg c08cfg, ops []cop, fixParent bool) (div *heapDiv, st 
 	defer func() { st.odd = heapq.VerifOddParent.Load() - odd0 }()
 
 	var calls []lruEntry
+	given := map[CVal]bool{} // every value handed to Put so far
+	var stray *CVal          // set by the size function when it is asked about anything else
 	conf := cache.LRU[int, CVal]()
 	lruStore := cache.VerifStoreOf(conf)
 	jumps := []int64{1<<31 - 50, 1 << 31, 1 << 32, 1 << 61}
@@ -134,6 +137,11 @@ func c08run(c *fw.Ctx, cfg c08cfg, ops []cop, fixParent bool) (div *heapDiv, st 
 	}
 	if !cfg.Unit {
 		conf = conf.WithSize(func(v CVal) int64 {
+			if !given[v] && stray == nil {
+				// the size of something the caller never handed to the cache
+				w := v
+				stray = &w
+			}
 			if cfg.MaxScale && v.Sz > cfg.Limit {
 				return math.MaxInt64 // too large; the product would not fit an int64
 			}
@@ -167,6 +175,7 @@ func c08run(c *fw.Ctx, cfg c08cfg, ops []cop, fixParent bool) (div *heapDiv, st 
 			if cfg.Unit {
 				v.Sz = 1
 			}
+			given[v] = true
 			got := ch.Put(o.K, v)
 			ok, replaced, evicted := ref.put(o.K, v)
 			if got != ok {
@@ -219,6 +228,9 @@ func c08run(c *fw.Ctx, cfg c08cfg, ops []cop, fixParent bool) (div *heapDiv, st 
 			st.clears++
 		}
 		lastWasRemove = o.Op == 'R'
+		if stray != nil {
+			return fail("%v: the size function was called with %v, which is not a value that was ever given to the cache", o, *stray), st
+		}
 		// callbacks of this call
 		if cfg.NoCallback {
 			wantCalls, wantEvict = nil, nil
